@@ -1,6 +1,7 @@
 package props
 
 import (
+	"go/token"
 	"go/types"
 	"strings"
 
@@ -75,6 +76,151 @@ func c06(c *an.Ctx) {
 				o.Fail(p.Pos(fn.Pos()), "mergeSameAlias no longer merges the %s of later same-alias selections", f)
 			}
 		}
+	})
+
+	c.Check("R-TS", "mergeSameAlias copy-on-write: a group's selection set is shallow-copied before its first append, and the copied flag is reset whenever a new group starts", 3, func(o *an.O) {
+		fn := c.NeedFunc(fed, "mergeSameAlias")
+		copies := an.CallsAny(fn, an.CalleeSpec{Pkg: an.ModulePath + "/" + gq, Recv: "SelectionSet", Name: "ShallowCopy"})
+		if len(copies) == 0 {
+			o.Fail(p.Pos(fn.Pos()), "mergeSameAlias appends to the first selection's own SelectionSet without copying it: the query (shared with other spreads of the fragment) is modified")
+			return
+		}
+		cp := copies[0]
+		o.Site(cp)
+		h := an.LoopHeaderOf(cp)
+		an.Need(h != nil, "loop over the selections in mergeSameAlias")
+		// the store last.SelectionSet = copy
+		var cpStore *ssa.Store
+		var lastVal ssa.Value
+		for _, r := range *cp.(ssa.Value).Referrers() {
+			if st, ok := r.(*ssa.Store); ok {
+				if fa, ok := st.Addr.(*ssa.FieldAddr); ok && an.FieldName(fa.X.Type(), fa.Field) == "SelectionSet" {
+					cpStore, lastVal = st, fa.X
+				}
+			}
+		}
+		if cpStore == nil {
+			o.FailAt(cp, "the shallow copy is not stored into the merged selection")
+			return
+		}
+		// the flag guarding the copy
+		var flagIf *ssa.If
+		var flag ssa.Value
+		for _, g := range an.GuardsOf(cp.Block()) {
+			v := g.Cond
+			if t, ok := v.Type().Underlying().(*types.Basic); !ok || t.Kind() != types.Bool {
+				continue
+			}
+			switch x := v.(type) {
+			case *ssa.Phi:
+				if x.Block() == h && !g.Polarity {
+					flag, flagIf = x, g.If
+				}
+			case *ssa.UnOp:
+				if _, isAlloc := x.X.(*ssa.Alloc); isAlloc && x.Op == token.MUL && !g.Polarity {
+					flag, flagIf = x.X, g.If
+				}
+			}
+		}
+		if flag == nil {
+			o.FailAt(cp, "cannot find the copied-flag that makes the shallow copy happen once per group (guards %v)", an.GuardStrings(cp.Block()))
+			return
+		}
+		o.Site(flagIf)
+		isFalse := func(v ssa.Value) bool {
+			cst, ok := v.(*ssa.Const)
+			return ok && cst.Value != nil && cst.Value.ExactString() == "false"
+		}
+		// where a new group starts: `last` changes
+		type change struct {
+			at   ssa.Instruction // from here to the header the flag must have become false
+			edge int             // header predecessor index when known (-1 otherwise)
+		}
+		var changes []change
+		switch lv := lastVal.(type) {
+		case *ssa.Phi:
+			if lv.Block() != h {
+				o.FailAt(cpStore, "the merged selection is not the loop-carried `last`")
+				return
+			}
+			for k, e := range lv.Edges {
+				if e == ssa.Value(lv) || !h.Dominates(h.Preds[k]) {
+					continue
+				}
+				if in, ok := e.(ssa.Instruction); ok {
+					changes = append(changes, change{in, k})
+				} else {
+					changes = append(changes, change{h.Preds[k].Instrs[0], k})
+				}
+			}
+		case *ssa.UnOp:
+			al, ok := lv.X.(*ssa.Alloc)
+			if !ok {
+				o.FailAt(cpStore, "cannot identify the merged selection variable")
+				return
+			}
+			for _, r := range *al.Referrers() {
+				if st, ok := r.(*ssa.Store); ok && st.Addr == ssa.Value(al) && an.LoopHeaderOf(st) != nil {
+					changes = append(changes, change{st, -1})
+				}
+			}
+		default:
+			o.FailAt(cpStore, "cannot identify the merged selection variable")
+			return
+		}
+		if len(changes) == 0 {
+			o.FailAt(cpStore, "no point where a new alias group starts was found")
+			return
+		}
+		for _, ch := range changes {
+			o.Site(ch.at)
+			switch f := flag.(type) {
+			case *ssa.Phi:
+				if ch.edge >= 0 {
+					if !isFalse(f.Edges[ch.edge]) {
+						o.FailAt(ch.at, "a new alias group starts but the copied-flag is not reset: the next group's first selection keeps its original SelectionSet and the merge appends to it, so the parsed query (shared between spreads of a fragment) is modified")
+					}
+					continue
+				}
+				for k, e := range f.Edges {
+					if !isFalse(e) && h.Dominates(h.Preds[k]) && an.Reach(fn, ch.at, an.NewBlocker(h.Instrs[0]))[h.Preds[k].Instrs[len(h.Preds[k].Instrs)-1]] {
+						o.FailAt(ch.at, "a new alias group starts but the copied-flag is not reset on the way to the next selection")
+					}
+				}
+			case *ssa.Alloc:
+				blk := an.NewBlocker()
+				for _, r := range *f.Referrers() {
+					if st, ok := r.(*ssa.Store); ok && st.Addr == ssa.Value(f) && isFalse(st.Val) {
+						blk.Instr[st] = true
+					}
+				}
+				if an.Reach(fn, ch.at, blk)[h.Instrs[0]] {
+					o.FailAt(ch.at, "a new alias group starts but the copied-flag is not reset: the next group's first selection keeps its original SelectionSet and the merge appends to it, so the parsed query (shared between spreads of a fragment) is modified")
+				}
+			}
+		}
+		// appends reach the merged set only through the copy or with the flag already set
+		blk := an.NewBlocker(cpStore)
+		blk.AddEdge(flagIf.Block(), flagIf.Block().Succs[0])
+		reach := an.Reach(fn, h.Instrs[0], blk)
+		an.Instrs(fn, func(i ssa.Instruction) {
+			st, ok := i.(*ssa.Store)
+			if !ok {
+				return
+			}
+			fa, ok := st.Addr.(*ssa.FieldAddr)
+			if !ok {
+				return
+			}
+			f := an.FieldName(fa.X.Type(), fa.Field)
+			nm := an.NamedOf(fa.X.Type())
+			if nm == nil || nm.Obj().Name() != "SelectionSet" || (f != "Selections" && f != "Fragments") {
+				return
+			}
+			if reach[i] {
+				o.FailAt(i, "the merged %s can be appended to without the selection set having been copied for this group", f)
+			}
+		})
 	})
 
 	c.Check("R-GUARD", "planObject: local iff selected service == current service; other selections go to that service's sub-plan; _federation key added when another service is involved", 4, func(o *an.O) {
